@@ -20,6 +20,7 @@ import (
 	"context"
 	"errors"
 	"fmt"
+	"math"
 
 	"github.com/cloudwego/dynamicgo/conv"
 	"github.com/cloudwego/dynamicgo/http"
@@ -234,6 +235,9 @@ func (self *BinaryConv) doRecurse(ctx context.Context, desc *thrift.TypeDescript
 		v, e := p.ReadDouble()
 		if e != nil {
 			return wrapError(meta.ErrWrite, "", e)
+		}
+		if math.IsNaN(v) || math.IsInf(v, 0) {
+			return wrapError(meta.ErrConvert, "a non-finite double (NaN, Inf) cannot be represented in JSON", nil)
 		}
 		*out = json.EncodeFloat64(*out, float64(v))
 	case thrift.STRING:
